@@ -556,6 +556,24 @@ example : Gen.batteryTextRecognised = true → Gen.compiledBattery.length ≥ 18
     ∧ (Gen.dataclassBattery.filter (fun c => match c.result with | some (_, _, d) => !d.isEmpty | none => false)).length ≥ 3 := by
   decide
 
+/-! ## string annotations of nested payloads (module namespace) -/
+
+/-- the policy observed on the live code (translator probe: two classes of one name converted in turn) -/
+theorem publish_policy_is_always : Gen.publishPolicy = .always := by decide
+
+/-- under the policy of the source a string annotation always denotes the class of that name that was converted LAST:
+    for every namespace, every history of earlier generations, the holder of generation `c` nests `c` -/
+theorem string_annotation_resolves_to_latest (ns : Namespace) (name : String) (earlier : List Nat) (c : Nat) :
+    resolveName (publishAll Gen.publishPolicy name (earlier ++ [c]) ns) name = some c := by
+  rw [publish_policy_is_always]
+  induction earlier generalizing ns with
+  | nil => simp [publishAll, publish, resolveName, alookup]
+  | cons e es ih => simpa [publishAll] using ih (publish .always ns name e)
+
+/-- the statement is sensitive to the policy: "publish once" (seeded change C20_m16) keeps the FIRST generation -/
+example : resolveName (publishAll .onlyIfAbsent "Item" [1, 2] []) "Item" = some 1
+    ∧ resolveName (publishAll .always "Item" [1, 2] []) "Item" = some 2 := by decide
+
 /-! ## the shipped definitions (regenerated from the live package on every run) -/
 
 /-- every shipped VariablePayload definition is well formed: distinct names, one name per slot, defaults ordered -/
